@@ -129,4 +129,92 @@ theorem parse_full (q : Str) (h : ∀ b, q ≠ delim :: b ∨ delim ∈ b) : ful
       · simp only [he, if_false]
         exact hj
 
+
+/-! ### exact refund (NFT), at the application level -/
+
+section refund
+variable (Hc : Str → Str)
+
+/-- the local class a packet's full class path stands for on the sending chain is the class the
+    token was taken from: holds for native classes (no `/`, repaired send path) and for voucher
+    classes whose trace entry is consistent (`tibc-<hash>` ↦ path with that hash) -/
+def ClassConsistent (cls full : Str) : Prop := ibcClass Hc full = cls
+
+theorem native_class_consistent (cls : Str) (h : WfBase cls) : ClassConsistent Hc cls cls := by
+  unfold ClassConsistent ibcClass parseTrace
+  simp only [split_nosep delim cls h]
+  simp
+
+/-- **Refund is exact (NFT).** If `SendNftTransfer` took the token (locked it in the module's
+    escrow when moving away from its origin, burned it when moving back) and the transfer is later
+    refunded (error acknowledgement), the NFT module of the sending chain is exactly what it was
+    before the send: same owner of every token, same URIs, same classes. -/
+theorem nft_refund_exact (a a1 : Apps) (cls id full : Str) (sender receiver : Addr) (away : Bool) (dc : String)
+    (hcons : ClassConsistent Hc cls full) (hsv : addrValid sender = true)
+    (hdenom : (a.nft.denom cls).isSome = true)
+    (htok : nftSendToken a cls id sender away = (a1, .ok)) :
+    let d : NftData := { cls := full, id := id, uri := a.nft.uri (cls, id), sender := sender, receiver := receiver,
+                         away := away, destContract := dc }
+    (nftRefund Hc a1 d).2 = .ok ∧ (nftRefund Hc a1 d).1.nft = a.nft := by
+  intro d
+  have hvc : ibcClass Hc d.cls = cls := hcons
+  have hds : d.sender = sender := rfl
+  have hdi : d.id = id := rfl
+  have hdu : d.uri = a.nft.uri (cls, id) := rfl
+  obtain ⟨dn, hdn⟩ := Option.isSome_iff_exists.mp hdenom
+  unfold nftSendToken at htok
+  unfold nftRefund
+  simp only [hds, hdi, hdu, hsv, Bool.not_true, Bool.false_eq_true, if_false, hvc]
+  cases away with
+  | true =>
+    simp only [if_true] at htok
+    -- locked: owner was `sender`, now the module account
+    unfold liftNft NftMod.transferOwner at htok
+    cases ho : a.nft.owner (cls, id) with
+    | none => simp [ho] at htok
+    | some o =>
+      by_cases hos : o = sender
+      · subst hos
+        simp only [ho, bne_self_eq_false, Bool.false_eq_true, if_false, hdn, Prod.mk.injEq, and_true] at htok
+        subst htok
+        have hd : d.away = true := rfl
+        simp only [hd, if_true, liftNft, NftMod.transferOwner, upd_apply, if_true, bne_self_eq_false, Bool.false_eq_true,
+          if_false, hdn]
+        refine ⟨trivial, ?_⟩
+        show ({ a.nft with owner := upd (upd a.nft.owner (cls, id) (some nftModAddr)) (cls, id) (some o) } : NftMod) = a.nft
+        have : upd (upd a.nft.owner (cls, id) (some nftModAddr)) (cls, id) (some o) = a.nft.owner := by
+          funext k; simp only [upd_apply]; split
+          · rename_i hk; rw [hk, ho]
+          · rfl
+        rw [this]
+      · have : (o != sender) = true := by simpa using hos
+        simp [ho, this] at htok
+  | false =>
+    simp only [Bool.false_eq_true, if_false] at htok
+    -- burned: re-minted to the module account with the same URI, then handed back
+    unfold liftNft NftMod.burn at htok
+    by_cases hos : a.nft.owner (cls, id) = some sender
+    · have hb : (a.nft.owner (cls, id) != some sender) = false := by simp [hos]
+      simp only [hb, Bool.false_eq_true, if_false, hdn, Prod.mk.injEq, and_true] at htok
+      subst htok
+      have hd : d.away = false := rfl
+      simp only [hd, Bool.false_eq_true, if_false, liftNft, NftMod.mint, hdn, upd_apply, if_true, Option.isSome_none,
+        NftMod.transferOwner, bne_self_eq_false]
+      refine ⟨trivial, ?_⟩
+      show ({ a.nft with owner := upd (upd (upd a.nft.owner (cls, id) none) (cls, id) (some nftModAddr)) (cls, id) (some sender),
+                         uri := upd a.nft.uri (cls, id) (a.nft.uri (cls, id)) } : NftMod) = a.nft
+      have h1 : upd (upd (upd a.nft.owner (cls, id) none) (cls, id) (some nftModAddr)) (cls, id) (some sender) = a.nft.owner := by
+        funext k; simp only [upd_apply]; split
+        · rename_i hk; rw [hk, hos]
+        · rfl
+      have h2 : upd a.nft.uri (cls, id) (a.nft.uri (cls, id)) = a.nft.uri := by
+        funext k; simp only [upd_apply]; split
+        · rename_i hk; rw [hk]
+        · rfl
+      rw [h1, h2]
+    · have hb : (a.nft.owner (cls, id) != some sender) = true := by simpa using hos
+      simp [hb] at htok
+
+end refund
+
 end Tibc.C06
